@@ -102,7 +102,7 @@ func (o *Obligation) script(e *Enc, extraAssume string, getValues []string) stri
 	if o.Reach != "true" && o.Reach != "" {
 		b.WriteString("(assert " + o.Reach + ")\n")
 	}
-	b.WriteString("(assert " + not(o.Goal) + ")\n")
+	b.WriteString(negatedGoal(o.Goal))
 	b.WriteString("(check-sat)\n")
 	if len(getValues) > 0 {
 		b.WriteString("(get-value (" + strings.Join(getValues, " ") + "))\n")
@@ -596,4 +596,108 @@ func irrelevantAxioms(lines []string, rest []string) map[int]bool {
 		}
 	}
 	return drop
+}
+
+// negatedGoal: the assertions that refute a goal. A goal of the shape  A1 => ... => forall x. (B1 => ... => C)  is refuted
+// by asserting the hypotheses A_i, B_i and (not C) over fresh constants for the bound variables (skolemisation by hand;
+// equisatisfiable with (assert (not goal))). The solvers are markedly less stable on a negated quantifier that carries
+// trigger annotations than on the skolemised form (measured on NewEVM#loop1.preserve: timeout for every seed vs. 0.1 s).
+func negatedGoal(goal string) string {
+	var b strings.Builder
+	g := strings.TrimSpace(goal)
+	for depth := 0; depth < 64; depth++ {
+		parts := sexprParts(g)
+		if len(parts) == 3 && parts[0] == "=>" {
+			b.WriteString("(assert " + parts[1] + ")\n")
+			g = parts[2]
+			continue
+		}
+		if len(parts) == 3 && parts[0] == "forall" {
+			binders := sexprParts(parts[1])
+			ok := len(binders) > 0
+			var decls []string
+			for _, bd := range binders {
+				nb := sexprParts(bd)
+				if len(nb) != 2 || !strings.HasPrefix(nb[0], "|q!") {
+					ok = false // only the engine's own, globally unique bound names are turned into constants
+					break
+				}
+				decls = append(decls, "(declare-const "+nb[0]+" "+nb[1]+")\n")
+			}
+			if !ok {
+				break
+			}
+			body := parts[2]
+			if bp := sexprParts(body); len(bp) >= 2 && bp[0] == "!" {
+				body = bp[1]
+			}
+			for _, d := range decls {
+				b.WriteString(d)
+			}
+			g = body
+			continue
+		}
+		break
+	}
+	b.WriteString("(assert " + not(g) + ")\n")
+	return b.String()
+}
+
+// sexprParts splits the top-level elements of a parenthesised s-expression "(a b (c d) |x y|)" -> [a, b, (c d), |x y|];
+// nil when s is not a parenthesised list.
+func sexprParts(s string) []string {
+	s = strings.TrimSpace(s)
+	if len(s) < 2 || s[0] != '(' || s[len(s)-1] != ')' {
+		return nil
+	}
+	var out []string
+	i := 1
+	n := len(s) - 1
+	for i < n {
+		for i < n && (s[i] == ' ' || s[i] == '\n' || s[i] == '\t') {
+			i++
+		}
+		if i >= n {
+			break
+		}
+		start := i
+		switch s[i] {
+		case '(':
+			d := 0
+			for ; i < n; i++ {
+				if s[i] == '|' {
+					j := strings.IndexByte(s[i+1:], '|')
+					if j < 0 {
+						return nil
+					}
+					i += j + 1
+					continue
+				}
+				if s[i] == '(' {
+					d++
+				} else if s[i] == ')' {
+					d--
+					if d == 0 {
+						i++
+						break
+					}
+				}
+			}
+			if d != 0 {
+				return nil
+			}
+		case '|':
+			j := strings.IndexByte(s[i+1:], '|')
+			if j < 0 {
+				return nil
+			}
+			i += j + 2
+		default:
+			for i < n && s[i] != ' ' && s[i] != '\n' && s[i] != '\t' && s[i] != '(' {
+				i++
+			}
+		}
+		out = append(out, s[start:i])
+	}
+	return out
 }
